@@ -9,6 +9,7 @@ package main
 import (
 	"flag"
 	"fmt"
+	"math"
 	"strings"
 
 	lua "github.com/yuin/gopher-lua"
@@ -18,9 +19,11 @@ func init() { subcmds["c18-run"] = c18Run }
 
 type c18Hist struct {
 	ID   int                      `json:"id"`
-	Keys []int                    `json:"keys"` // key of object id (1-based); objects exist when non-empty
-	MT   bool                     `json:"mt"`   // objects share a metatable whose __lt compares .k (and logs)
-	Q    string                   `json:"q"`    // "last" | "all" | "none": where the concat/unpack battery runs
+	Keys []int                    `json:"keys"`  // key of object id (1-based); objects exist when non-empty
+	MT   bool                     `json:"mt"`    // objects share a metatable whose __lt compares .k (and logs)
+	Q    string                   `json:"q"`     // "last" | "all" | "none": where the concat/unpack battery runs
+	XK   []Tok                    `json:"xkeys"` // numeric keys outside the list read back after every call
+	DQ   []map[string]interface{} `json:"dq"`    // digest concat queries {sepb,i,j} run where the battery runs (long lists)
 	H    []map[string]interface{} `json:"h"`
 }
 
@@ -29,8 +32,9 @@ local rawget, rawset, select, pcall, error = rawget, rawset, select, pcall, erro
 function vset(t,i,v) t[i]=v end
 function vrawset(t,i,v) rawset(t,i,v) end
 function vlen(t) return #t end
-function vrd(t,w,f) for i=0,w do f(rawget(t,i)) end end
-function vidx(t,w,f) for i=0,w do f(t[i]) end end
+function vrd(t,from,w,f) for i=from,from+w do f(rawget(t,i)) end end
+function vidx(t,from,w,f) for i=from,from+w do f(t[i]) end end
+function vfill(t,n,a,m) for k=1,n do t[k]=(a*k)%m end end
 -- comparators: every call is logged with its arguments and its answer (T/F/E)
 local function logged(log, f, noret)
   local cnt = 0
@@ -91,6 +95,47 @@ func (e *c18Env) toks(vs []lua.LValue) []interface{} {
 		out = append(out, valueToTok(e.objs, v))
 	}
 	return out
+}
+
+// Numeric key tokens: ["n",i] = i, ["f",i] = i+0.5, ["p",e] = 2^e.
+func c18KeyValue(t Tok) lua.LValue {
+	switch t[0].(string) {
+	case "n":
+		return lua.LNumber(tokInt(t[1]))
+	case "f":
+		return lua.LNumber(float64(tokInt(t[1])) + 0.5)
+	case "p":
+		return lua.LNumber(math.Ldexp(1, tokInt(t[1])))
+	}
+	panic("bad key token " + fmt.Sprint(t))
+}
+
+func c18KeyTok(v lua.LValue) Tok {
+	n, ok := v.(lua.LNumber)
+	if !ok {
+		return Tok{"o", v.Type().String()}
+	}
+	f := float64(n)
+	if f == math.Trunc(f) && math.Abs(f) < 1<<31 {
+		return Tok{"n", int(f)}
+	}
+	if f-0.5 == math.Trunc(f-0.5) && math.Abs(f) < 1<<30 {
+		return Tok{"f", int(f - 0.5)}
+	}
+	if fr, e := math.Frexp(f); fr == 0.5 && e-1 >= 31 {
+		return Tok{"p", e - 1}
+	}
+	return Tok{"x", fmt.Sprint(f)}
+}
+
+// c18Digest: length and two polynomial hashes of the bytes of s (what ListLib!ConcatDigest defines).
+func c18Digest(s string) (int, int, int) {
+	h1, h2 := 0, 0
+	for i := 0; i < len(s); i++ {
+		h1 = (h1*31 + int(s[i])) % 32749
+		h2 = (h2*31 + int(s[i])) % 32719
+	}
+	return len(s), h1, h2
 }
 
 // c18Int: an integral number result as int, -1 for anything else.
@@ -173,8 +218,39 @@ func (e *c18Env) battery(tb *lua.LTable, qa, qr []int, salt int) []interface{} {
 	return qs
 }
 
-func (e *c18Env) observe(tb *lua.LTable, ev map[string]interface{}, w int, useIndex bool) {
+// digestQuery: table.concat(t, sep, i, j) on a long list; the result is recorded as length + hashes.
+func (e *c18Env) digestQuery(tb *lua.LTable, dq map[string]interface{}) map[string]interface{} {
+	sepb := dq["sepb"].([]interface{})
+	b := make([]byte, len(sepb))
+	for i, x := range sepb {
+		b[i] = byte(tokInt(x))
+	}
+	i, j := asTok(dq["i"]), asTok(dq["j"])
+	var sepv lua.LValue = lua.LNil
+	if len(b) > 0 {
+		sepv = lua.LString(string(b))
+	}
+	args := c18TrimArgs([]lua.LValue{tb, sepv, c18OptArg(i), c18OptArg(j)}, 1, true)
+	q := map[string]interface{}{"q": "concatd", "sepb": sepb, "i": i, "j": j, "argc": len(args), "err": false, "len": 0, "h1": 0, "h2": 0}
+	r, err := e.call(e.fn["concat"], args...)
+	if err != nil || len(r) != 1 || r[0].Type() != lua.LTString {
+		q["err"] = true
+		if err != nil {
+			q["msg"] = strings.SplitN(err.Error(), "\n", 2)[0]
+		}
+		return q
+	}
+	q["len"], q["h1"], q["h2"] = c18Digest(string(r[0].(lua.LString)))
+	return q
+}
+
+func (e *c18Env) observe(tb *lua.LTable, ev map[string]interface{}, w int, useIndex bool, xkeys []Tok) {
 	rd := []interface{}{}
+	from := 0
+	if n := tb.Len(); n > 1000 { // long lists: a window around the end
+		from = n - 3
+	}
+	ev["rdfrom"] = from
 	col := e.L.NewFunction(func(L *lua.LState) int {
 		rd = append(rd, valueToTok(e.objs, L.Get(1)))
 		return 0
@@ -183,11 +259,22 @@ func (e *c18Env) observe(tb *lua.LTable, ev map[string]interface{}, w int, useIn
 	if useIndex {
 		name = "vidx"
 	}
-	if _, err := e.call(e.L.GetGlobal(name), tb, lua.LNumber(w), col); err != nil {
+	if _, err := e.call(e.L.GetGlobal(name), tb, lua.LNumber(from), lua.LNumber(w), col); err != nil {
 		panic(err)
 	}
 	ev["rd"] = rd
-	ev["len"], ev["getn"], ev["maxn"] = -1, -1, -1
+	xk := []interface{}{}
+	for _, k := range xkeys {
+		r, err := e.call(e.L.GetGlobal("rawget"), tb, c18KeyValue(k))
+		if err != nil || len(r) != 1 {
+			xk = append(xk, []interface{}{k, Tok{"err"}})
+		} else {
+			xk = append(xk, []interface{}{k, valueToTok(e.objs, r[0])})
+		}
+	}
+	ev["xk"] = xk
+	ev["len"], ev["getn"] = -1, -1
+	ev["maxn"] = Tok{"err"}
 	if r, err := e.call(e.L.GetGlobal("vlen"), tb); err == nil && len(r) == 1 {
 		ev["len"] = c18Int(r[0])
 	}
@@ -195,7 +282,7 @@ func (e *c18Env) observe(tb *lua.LTable, ev map[string]interface{}, w int, useIn
 		ev["getn"] = c18Int(r[0])
 	}
 	if r, err := e.call(e.fn["maxn"], tb); err == nil && len(r) == 1 {
-		ev["maxn"] = c18Int(r[0])
+		ev["maxn"] = c18KeyTok(r[0])
 	}
 	ev["arr"] = tb.VerifShape().Array
 }
@@ -280,6 +367,15 @@ func c18Run(args []string) int {
 				}
 				ev["entry"] = name
 				r, err = e.call(L.GetGlobal(name), tb, lua.LNumber(tokInt(op["i"])), val())
+			case "setx":
+				name := "vset"
+				if (h.ID+pos)%3 == 0 {
+					name = "vrawset"
+				}
+				ev["entry"] = name
+				r, err = e.call(L.GetGlobal(name), tb, c18KeyValue(asTok(op["k"])), val())
+			case "fill":
+				r, err = e.call(L.GetGlobal("vfill"), tb, lua.LNumber(tokInt(op["n"])), lua.LNumber(tokInt(op["a"])), lua.LNumber(tokInt(op["m"])))
 			case "sort":
 				cmp := op["cmp"].(map[string]interface{})
 				kind := cmp["kind"].(string)
@@ -287,6 +383,8 @@ func c18Run(args []string) int {
 				e.ncalls = 0
 				if kind == "lt" || kind == "mt" {
 					r, err = e.call(e.fn["sort"], tb)
+				} else if kind == "ltnil" { // an explicit nil comparator
+					r, err = e.call(e.fn["sort"], tb, lua.LNil)
 				} else {
 					j := 0
 					if jv, ok := cmp["j"]; ok {
@@ -325,12 +423,17 @@ func c18Run(args []string) int {
 				ev["res"] = e.toks(r)
 			}
 			ev["obs"] = true
-			e.observe(tb, ev, in0.W, (h.ID+pos)%4 == 1)
+			e.observe(tb, ev, in0.W, (h.ID+pos)%4 == 1, h.XK)
+			qs := []interface{}{}
 			if h.Q == "all" || (h.Q == "last" && pos == len(h.H)-1) {
-				ev["q"] = e.battery(tb, in0.QA, in0.QR, h.ID+pos)
-			} else {
-				ev["q"] = []interface{}{}
+				if tb.Len() <= 1000 {
+					qs = e.battery(tb, in0.QA, in0.QR, h.ID+pos)
+				}
+				for _, dq := range h.DQ {
+					qs = append(qs, e.digestQuery(tb, dq))
+				}
 			}
+			ev["q"] = qs
 			evs = append(evs, ev)
 		}
 		keys := h.Keys
